@@ -5,7 +5,7 @@ CLASSES = {
   'ResurrectorSink': dict(path='ResurrectorSink', bases=['ClientMessageSink'], fields={
     '_down_on': 'real?', '_resurrector': 'Greenlet?', '_next_factory': 'NextProvider', '_properties': 'any',
     '_initial_wait_interval': 'real', '_max_wait_interval': 'real', '_backoff_exponent': 'real', 'endpoint': 'any',
-    'g_attempts': 'int'}, ghost=['g_attempts']),
+    'g_attempts': 'int', 'g_spawns': 'int'}, ghost=['g_attempts', 'g_spawns']),
   'FailedFastError': dict(file='scales/message.py', path='FailedFastError', bases=[], fields={}),
   'GreenletExit': dict(extern=True, path=None, bases=[], fields={}),
 }
@@ -45,15 +45,26 @@ FUNCTIONS = {
     ensures=['truthy(self._down_on) and self._next is None', 'self._on_faulted.value == val',
              # idempotent while down: a second fault neither spawns another retry loop nor touches the clock
              'implies(old(truthy(self._down_on)), self._down_on == old(self._down_on) and self._resurrector == old(self._resurrector))',
-             'implies(not old(truthy(self._down_on)), old(self._next).g_closes == old(old(self._next).g_closes) + 1)'],
-    modifies=['ResurrectorSink._down_on', 'MessageSink._next', 'ResurrectorSink._resurrector', 'Channel.state', 'Channel.g_closes', 'Observable.value', '$cls'],
+             'implies(not old(truthy(self._down_on)), old(self._next).g_closes == old(old(self._next).g_closes) + 1)',
+             # every outage gets its retry loop -- the first one and each later one alike
+             'implies(not old(truthy(self._down_on)), self.g_spawns == old(self.g_spawns) + 1 and self._resurrector is not None)',
+             'implies(old(truthy(self._down_on)), self.g_spawns == old(self.g_spawns))',
+             # the handler is taken off the dead sink
+             'implies(not old(truthy(self._down_on)), let(o, old(self._next.on_faulted), o.g_nsubs == old(o.g_nsubs) - 1))'],
+    modifies=['ResurrectorSink._down_on', 'MessageSink._next', 'ResurrectorSink._resurrector', 'ResurrectorSink.g_spawns', 'Channel.state', 'Channel.g_closes',
+              'Observable.value', 'Observable.g_nsubs', '$cls'],
     allocates=True,
+    ghost=[{'after': 'self._resurrector = gevent.spawn(self._TryResurrect)', 'do': ['self.g_spawns = self.g_spawns + 1']}],
     props=['C09'],
   ),
   'ResurrectorSink.Close': dict(
     cls='ResurrectorSink', conc='Resurrector',
-    requires=[], ensures=['self._resurrector is None', 'not truthy(self._down_on)'],
-    modifies=['ResurrectorSink._down_on', 'ResurrectorSink._resurrector', 'Channel.state', 'Channel.g_closes'],
+    requires=['implies(self._next is not None, allocated(self._next) and allocated(self._next.on_faulted) and self._next.on_faulted != self._on_faulted)'],
+    ensures=['self._resurrector is None', 'not truthy(self._down_on)',
+             # the fault handler is removed from the sink being closed (a fault already on its way must not start a retry loop)
+             'implies(old(self._next) is not None, let(o, old(self._next.on_faulted), o.g_nsubs == old(o.g_nsubs) - 1))',
+             'implies(old(self._next) is not None, old(self._next).g_closes == old(old(self._next).g_closes) + 1)'],
+    modifies=['ResurrectorSink._down_on', 'ResurrectorSink._resurrector', 'Channel.state', 'Channel.g_closes', 'Observable.g_nsubs'],
     props=['C09'],
   ),
   'ResurrectorSink._TryResurrect': dict(
@@ -61,14 +72,14 @@ FUNCTIONS = {
     locals={'sink': 'Channel'},
     requires=['self._initial_wait_interval > 1', 'self._max_wait_interval >= self._initial_wait_interval', 'self._backoff_exponent > 1'],
     ensures=[],
-    modifies=['ResurrectorSink._down_on', 'MessageSink._next', 'ResurrectorSink.g_attempts', 'Channel.state', 'Channel.g_opens', 'Channel.g_closes', '$cls'],
+    modifies=['ResurrectorSink._down_on', 'MessageSink._next', 'ResurrectorSink.g_attempts', 'Channel.state', 'Channel.g_opens', 'Channel.g_closes', 'Observable.g_nsubs', '$cls'],
     allocates=True,
     loops={0: dict(invariant=['ResInv(self)', 'not is_none(last_attempt)',
                               # growing, capped back-off
                               'wait_interval >= self._initial_wait_interval and wait_interval <= self._max_wait_interval',
                               'self._initial_wait_interval > 1 and self._max_wait_interval >= self._initial_wait_interval and self._backoff_exponent > 1'],
                    modifies=['ResurrectorSink._down_on', 'MessageSink._next', 'ResurrectorSink._resurrector', 'ResurrectorSink.g_attempts', 'Channel.state',
-                             'Channel.g_opens', 'Channel.g_closes', 'Observable.value', '$cls'], allocates=True)},
+                             'Channel.g_opens', 'Channel.g_closes', 'Observable.value', 'Observable.g_nsubs', '$cls'], allocates=True)},
     yields=[{'at': 'gevent.sleep(wait_interval)'}, {'at': 'sink.Open().get()', 'rely': ['allocated(sink)']}],
     ghost=[
       {'before': 'gevent.sleep(wait_interval)', 'do': ['g_w = wait_interval']},
